@@ -265,6 +265,56 @@ super_restores_harness!(c06_super_restores_cursor_2_levels, 2);
 super_restores_harness!(c06_super_restores_cursor_1_level, 1);
 // @verif-end
 
+
+// ---------------------------------------------------------------------------
+// C13: rendering a block through the state API is part of the same render - it runs on the budget that is
+// left, not on a fresh one.  Executor::call_block (block lookup + nested evaluation) is replaced by a stub; the
+// crate-level entry point `vm::call_block` that `State::render_block` and friends go through is real.
+// ---------------------------------------------------------------------------
+pub(crate) fn executor_call_block_model<'env>(
+    _name: &str,
+    _state: &mut State<'_, 'env>,
+    _out: &mut Output,
+) -> Result<Option<Value>, Error>
+where
+    'env: 'env,
+{
+    Ok(None)
+}
+
+// @verif props=C13 tier=quick cap=600 group=core fns=vm::call_block,State::fuel_levels stubs=Executor::call_block->model
+/// For EVERY budget >= 2: after one unit has been consumed, entering a block render through `vm::call_block`
+/// leaves the fuel levels exactly as they were (consumed 1, remaining budget - 1).
+#[kani::proof]
+#[kani::unwind(4)]
+#[kani::stub(std::hash::RandomState::new, crate::verif_common::random_state_stub)]
+#[kani::stub(alloc::fmt::format, crate::verif_common::format_stub)]
+#[kani::stub(crate::vm::Executor::call_block, executor_call_block_model)]
+fn c13_block_render_through_state_shares_budget() {
+    let budget: u64 = kani::any();
+    kani::assume(budget >= 2);
+    let mut env = Environment::empty();
+    env.set_fuel(Some(budget));
+    let env: &'static Environment<'static> = Box::leak(Box::new(env));
+    let mut state = State::new_for_env(env);
+    let r0 = state.fuel_tracker.as_mut().unwrap().track(&Instruction::Swap);
+    assert!(r0.is_ok());
+    core::mem::forget(r0);
+    assert!(state.fuel_levels() == Some((1, budget - 1)));
+    let mut sink = NullSink;
+    let r = {
+        let mut out = Output::new(&mut sink);
+        let r = call_block("b", &mut state, &mut out);
+        core::mem::forget(out);
+        r
+    };
+    assert!(r.is_ok());
+    assert!(state.fuel_levels() == Some((1, budget - 1)));
+    kani::cover!(budget == u64::MAX);
+    kani::cover!(budget == 2);
+    core::mem::forget((r, state));
+}
+
 #[cfg(test)]
 mod playback {
     use super::*;
